@@ -374,7 +374,7 @@ theorem scanStep_inv (P : List (Mat R)) (st : Scan (Mat R)) (done : List (Leg (M
       · simp [h.chunks]
       · intro M hM
         simp at hM; subst hM; exact hm
-      · simp [hlegs, hdimm, erase, dims, matLeg]
+      · simp [hlegs, erase, dims, matLeg]
       · simp only [List.map_append, List.map_cons, List.map_nil, legSem_none]
         exact LEq.append heq (LEq.refl _) (by simpa using good_matLeg m hm) (by simpa using good_matLeg m hm)
   · by_cases hI : isIdentity (dictOf R) m = true
@@ -417,7 +417,7 @@ theorem scanStep_inv (P : List (Mat R)) (st : Scan (Mat R)) (done : List (Leg (M
         rcases hM with hM | rfl
         · exact hppos M hM
         · exact hm
-      · simp [hlegs, bumpHead, hdimm, dims_append, dims, matLeg]
+      · simp [hlegs, bumpHead, dims_append, dims, matLeg]
       · simp only [List.map_append, List.map_cons, List.map_nil]
         rw [← List.append_assoc]
         exact LEq.append heq (LEq.refl _) (by simpa using good_matLeg m hm) (by simpa using good_matLeg m hm)
@@ -441,7 +441,7 @@ theorem scan_finish (P : List (Mat R)) (st : Scan (Mat R)) (done : List (Leg (Ma
         else flush (matOps (dictOf R)) false st) = .ok st' ∧ Done P st' done' := by
   have hgd := good_done done h.pos h.dimOK
   rcases h.cur with ⟨hlast, k, hk, hlegs, heq⟩ | ⟨hlast, hproto, hppos, hlegs, heq⟩
-  · refine ⟨st, done ++ [(k, none)], by simp [hlast], ?_, ?_, ?_, ?_, ?_⟩
+  · refine ⟨st, done ++ [(k, none)], by simp [hlast, pure, Except.pure], ?_, ?_, ?_, ?_, ?_⟩
     · intro x hx
       simp only [List.mem_append, List.mem_singleton] at hx
       rcases hx with hx | rfl
@@ -478,5 +478,155 @@ theorem scan_finish (P : List (Mat R)) (st : Scan (Mat R)) (done : List (Leg (Ma
       have hgr : ∀ y ∈ (runLegs false st.proto).map legSem, Leg.Good y :=
         good_done _ (runLegs_pos false st.proto hproto hppos) (runLegs_dimOK false st.proto)
       exact (LEq.append (LEq.refl _) hrun hgr (good_protoLegs _ hppos)).trans heq
+
+/-! ### the matrices of a layer -/
+
+/-- `[m for m in mp if isinstance(m, np.ndarray)]` -/
+def matsOf (l : Layer (Mat R)) : List (Mat R) :=
+  l.filterMap fun b => match b with
+    | .mat M => some M
+    | .scalar => none
+
+theorem filterMap_toPy (l : Layer (Mat R)) (f : PyVal (Mat R) → Option (Mat R)) (h1 : ∀ M, f (.arr M) = some M)
+    (h2 : f .int1 = none) : (l.map Block.toPy).filterMap f = matsOf l := by
+  induction l with
+  | nil => rfl
+  | cons b rest ih =>
+    cases b with
+    | scalar => simpa [matsOf, Block.toPy, h2] using ih
+    | mat M => simpa [matsOf, Block.toPy, h1] using ih
+
+theorem matsOf_pos (l : Layer (Mat R)) (hg : ∀ x ∈ l.map blockLeg, Leg.Good x) : ∀ M ∈ matsOf l, 0 < M.dim := by
+  intro M hM
+  simp only [matsOf, List.mem_filterMap] at hM
+  obtain ⟨b, hb, hbM⟩ := hM
+  cases b with
+  | scalar => simp at hbM
+  | mat M' =>
+    simp only [Option.some.injEq] at hbM
+    subst hbM
+    exact (hg (blockLeg (.mat M')) (List.mem_map.mpr ⟨_, hb, rfl⟩)).1
+
+/-- dropping the scalar placeholders does not change the Kronecker product -/
+theorem matsOf_LEq (l : Layer (Mat R)) (hg : ∀ x ∈ l.map blockLeg, Leg.Good x) :
+    LEq ((matsOf l).map matLeg) (l.map blockLeg) := by
+  induction l with
+  | nil => exact LEq.refl _
+  | cons b rest ih =>
+    have hgr : ∀ x ∈ rest.map blockLeg, Leg.Good x := fun x hx => hg x (by simp only [List.map_cons]; exact List.mem_cons_of_mem _ hx)
+    have hr := ih hgr
+    cases b with
+    | scalar =>
+      have e : matsOf (Block.scalar :: rest) = matsOf rest := by simp [matsOf]
+      rw [e]
+      refine hr.trans ⟨?_, ?_⟩
+      · simp [dims_cons, blockLeg, Block.toPy, pvLeg]
+      · simp only [List.map_cons, blockLeg, Block.toPy, pvLeg]
+        exact (kronList_scalar_cons _ hgr).symm
+    | mat M =>
+      have e : matsOf (Block.mat M :: rest) = M :: matsOf rest := by simp [matsOf]
+      rw [e]
+      have hM : Leg.Good (matLeg M) := hg (blockLeg (.mat M)) (by simp)
+      have := LEq.append (LEq.refl [matLeg M]) hr (good_protoLegs _ (matsOf_pos rest hgr)) hgr
+      simpa [blockLeg, Block.toPy, pvLeg] using this
+
+theorem matsOf_ne (l : Layer (Mat R)) (h : l.any isMat = true) : matsOf l ≠ [] := by
+  induction l with
+  | nil => simp at h
+  | cons b rest ih =>
+    cases b with
+    | mat M => simp [matsOf]
+    | scalar =>
+      have : matsOf (Block.scalar :: rest) = matsOf rest := by simp [matsOf]
+      rw [this]
+      exact ih (by simpa [isMat] using h)
+
+/-! ### BackendForOnes -/
+
+theorem ok_bind {α β : Type} (a : α) (f : α → Except Err β) : (Except.ok a >>= f) = f a := rfl
+
+/-- the statements after the loop, followed by a continuation (the `do` block distributes it over the branches) -/
+theorem finish_bind (st1 st2 : Scan (Mat R)) {β : Type} (K : Scan (Mat R) → Except Err β)
+    (hfin : (if st1.last then (pure st1 : Except Err (Scan (Mat R)))
+        else if st1.proto.isEmpty then Except.error Err.assertion
+        else flush (matOps (dictOf R)) false st1) = .ok st2) :
+    (if st1.last = true then (pure st1 >>= K)
+      else if st1.proto.isEmpty = true then ((Except.error Err.assertion : Except Err (Scan (Mat R))) >>= K)
+      else (flush (matOps (dictOf R)) false st1 >>= K)) = K st2 := by
+  by_cases hl : st1.last = true
+  · rw [if_pos hl] at hfin ⊢
+    have : st1 = st2 := by simpa [pure, Except.pure] using hfin
+    subst this; rfl
+  · rw [if_neg hl] at hfin ⊢
+    by_cases he : st1.proto.isEmpty = true
+    · rw [if_pos he] at hfin; cases hfin
+    · rw [if_neg he] at hfin ⊢
+      rw [hfin]; rfl
+
+/-- `_opt_einsum_ignoring_ones` implements a well-formed layer -/
+theorem onesEinsum_ok {n : ℕ} {l : Layer (Mat R)} (hwf : WFI l) (hlen : l.length = n) (hn : 1 ≤ n)
+    (hmats : (matsOf l).length ≤ 26) :
+    ∃ p, onesEinsum (matOps (dictOf R)) (l.map Block.toPy) = .ok p ∧ PlanOK n l p := by
+  have hl : l ≠ [] := by intro hh; subst hh; simp at hlen; omega
+  have hgood := hwf.good
+  have hpos := matsOf_pos l hgood
+  have hleq := matsOf_LEq l hgood
+  have hdims : dims (l.map blockLeg) = 2 ^ n := by rw [hwf.length_dims, hlen]
+  unfold onesEinsum
+  simp only
+  rw [filterMap_toPy l _ (fun _ => rfl) rfl, if_neg (by omega)]
+  rcases hms : matsOf l with _ | ⟨m0, rest⟩
+  · exact absurd hms (matsOf_ne l (hwf.any_isMat hl))
+  · rw [hms] at hpos hleq
+    obtain ⟨st1, done1, hfold, hinv1⟩ := scan_fold rest (fun M hM => hpos M (by simp [hM])) [m0] _ []
+      (scanInit_inv m0 (hpos m0 (by simp)))
+    obtain ⟨st2, done2, hfin, hdone⟩ := scan_finish _ st1 done1 hinv1
+    have hPP : [m0] ++ rest = m0 :: rest := rfl
+    rw [hPP] at hdone
+    dsimp only
+    rw [hfold, ok_bind, finish_bind st1 st2 _ hfin]
+    have hrev : st2.legsRev.reverse = done2.map erase := by rw [hdone.legs, List.reverse_reverse]
+    have hcrev : st2.chunksRev.reverse = done2.filterMap fun x => x.2 := by
+      rw [hdone.chunks, List.reverse_reverse]
+    have hd2 : dims (done2.map legSem) = 2 ^ n := by rw [hdone.eq.1, hleq.1, hdims]
+    have hk2 : kronList (done2.map legSem) = layerMat l := by rw [hdone.eq.2, hleq.2]; rfl
+    by_cases hall : (st2.legsRev.all fun p => p.2) = true
+    · refine ⟨.skip, by rw [if_pos hall]; rfl, ?_⟩
+      show layerMat l = idMat (2 ^ n)
+      rw [← hk2, ← hd2]
+      apply kronList_all_none
+      · intro y hy
+        obtain ⟨x, hx, rfl⟩ := List.mem_map.mp hy
+        exact hdone.pos x hx
+      · intro y hy
+        obtain ⟨x, hx, rfl⟩ := List.mem_map.mp hy
+        rw [hdone.legs, List.all_reverse, List.all_map, List.all_eq_true] at hall
+        have := hall x hx
+        simp only [Function.comp, erase, Option.isNone_iff_eq_none] at this
+        simp [legSem, this]
+    · refine ⟨.einsum done2, ?_, hdone.pos, by rw [legDims_eq, hd2], hk2⟩
+      rw [if_neg hall, hrev, hcrev, mkLegs_erase done2 hdone.dimOK]
+      rfl
+
+/-- both regimes of `BackendForOnes` implement a well-formed layer -/
+theorem onesLayer_ok {n : ℕ} {l : Layer (Mat R)} (hwf : WFI l) (hlen : l.length = n) (hn : 1 ≤ n)
+    (hmats : (matsOf l).length ≤ 26) :
+    ∃ p, onesLayer (matOps (dictOf R)) n (l.map Block.toPy) = .ok p ∧ PlanOK n l p := by
+  unfold onesLayer
+  split
+  · -- n ≤ 6: `_kronecker(mp) @ psi`
+    have hl : l ≠ [] := by intro hh; subst hh; simp at hlen; omega
+    obtain ⟨v, hv, h1, h2⟩ := kroneckerG_sem (semOp_pyKron (R := R)) (l.map Block.toPy) (by simpa using hl)
+    rw [map_pvLeg_toPy] at h1 h2
+    rw [hwf.length_dims, hlen] at h1
+    have h2n : 2 ≤ 2 ^ n := by
+      calc 2 = 2 ^ 1 := rfl
+        _ ≤ 2 ^ n := Nat.pow_le_pow_right (by omega) hn
+    cases v with
+    | arr K =>
+      refine ⟨.dense (.arr K), by rw [hv]; rfl, K, rfl, h1, h2⟩
+    | int1 => simp [pvLeg] at h1; omega
+    | np0 => simp [pvLeg] at h1; omega
+  · exact onesEinsum_ok hwf hlen hn hmats
 
 end QG.Lemmas.Backend
